@@ -98,3 +98,159 @@ def core_inputs(dirname):
             if f not in [x for x, _ in out]:
                 out.append((f, min(os.path.getsize(f), 8192)))
     return out
+
+
+# --------------------------------------------------------------------------
+# archives that will not unpack: every refusal branch, not only truncation / allocation failure
+# --------------------------------------------------------------------------
+
+ARCH_EXT = (".lha", ".lzh", ".zip", ".arc", ".gz", ".bz2", ".xz", ".z", ".mmcmp", ".pp", ".lzx", ".sqsh", ".s404", ".muse",
+            ".arcfs", ".spark", ".xpk", ".zoo")
+
+
+def archive_set(dirname, quick=True):
+    """Well-formed small archives of every built-in container around one module (writers of the C08 / C09 stacks,
+    imported read-only), the liar / bomb generators of C02, and the smallest corpus archives.  Returns
+    [(path, fields)] where fields = [(offset, length)] are structure fields known to the writer (may be empty);
+    fields = None: run the file as it is, do not derive mutations from it."""
+    import random
+    import c08_writers as w8
+    import c09_archives as a9
+    import c02_gens
+    import liars
+    os.makedirs(dirname, exist_ok=True)
+    payload = open(os.path.join(vlib.REPO, "test", "test.xm"), "rb").read()
+    rng = random.Random(20260930)
+    out = []
+
+    def put(name, data, fields=()):
+        p = os.path.join(dirname, name)
+        with open(p, "wb") as f:
+            f.write(data)
+        out.append((p, list(fields)))
+
+    for i, a in enumerate(a9.all_writers(rng, payload)):
+        put("w9-%02d-%s.%s" % (i, a.get("variant", "x"), a["fmt"]), a["data"], sorted(a["fields"].values()))
+    w8set = [
+        ("lha0.lha", lambda: w8.lha_archive([("test.xm", payload)], level=0)),
+        ("lha1.lha", lambda: w8.lha_archive([("test.xm", payload)], level=1)),
+        ("lha2.lha", lambda: w8.lha_archive([("test.xm", payload)], level=2)),
+        ("lzw.Z", lambda: w8.compress_lzw(payload)),
+        ("lzw12.Z", lambda: w8.compress_lzw(payload, maxbits=12)),
+        ("pp20.pp", lambda: w8.pp20(payload)),
+        ("mm-stored1.mmcmp", lambda: w8.mmcmp_stored(payload)),
+        ("mm-stored3x3.mmcmp", lambda: w8.mmcmp_stored(payload, block_size=600, subs_per_block=3)),
+        ("mm-packed-a.mmcmp", lambda: w8.mmcmp_packed(payload, random.Random(5))[0]),
+        ("mm-packed-b.mmcmp", lambda: w8.mmcmp_packed(payload, random.Random(6), max_block=300)[0]),
+        ("lzx-stored.lzx", lambda: w8.lzx_archive([("test.xm", payload)])),
+        ("mm-bomb.mmcmp", lambda: c02_gens.mmcmp_rewrite_bomb(64, 50)),
+    ]
+    for name, fn in w8set:
+        try:
+            d = fn()
+        except Exception:
+            continue
+        if isinstance(d, tuple):
+            d = d[0]
+        put("w8-" + name, bytes(d))
+    # liars declare huge sizes: each call costs up to a second - they are run intact only (fields = None)
+    for p in liars.write_set(random.Random(7), os.path.join(dirname, "liars"), 16 if quick else 64):
+        out.append((p, None))
+    small = [f for f in vlib.corpus_files() if 64 <= os.path.getsize(f) <= 4096
+             and (f.lower().endswith(ARCH_EXT) or os.path.basename(f).lower().startswith(("depack_", "arc-", "mmcmp")))]
+    small.sort(key=lambda f: (os.path.getsize(f), f))
+    for f in small[:12 if quick else 80]:
+        out.append((f, []))
+    return out
+
+
+def mutation_specs(data, fields, rng, quick=True):
+    """byte-replacement specs for `c04_faults mutate`: every byte of the header region, of the trailer and of the fields
+    the writer knows, with values that make sizes overshoot / undershoot, flip method and flag bits"""
+    n = len(data)
+    head = 112 if quick else 256
+    tail = 24 if quick else 64
+    offs = set(range(0, min(n, head))) | set(range(max(0, n - tail), n))
+    for (o, ln) in fields:
+        offs |= set(range(o, min(n, o + min(ln, 64))))
+    specs = []
+    for o in sorted(offs):
+        cur = data[o]
+        vals = [0x00, 0xff, cur ^ 0x80, (cur + 1) & 0xff]
+        if not quick:
+            vals += [cur ^ 0x01, cur ^ 0x10, (cur - 1) & 0xff, 0x7f]
+        seen = set()
+        for v in vals:
+            if v != cur and v not in seen:
+                seen.add(v)
+                specs.append("%d:%d" % (o, v))
+    # a few two-byte edits (a size field and its neighbour)
+    for _ in range(20 if quick else 200):
+        o = rng.randrange(0, max(1, min(n - 1, head)))
+        specs.append("%d:%d,%d:%d" % (o, rng.randrange(256), o + 1, rng.randrange(256)))
+    return specs
+
+
+# --------------------------------------------------------------------------
+# multi-file formats: module + companion file(s)
+# --------------------------------------------------------------------------
+
+def companion_worlds(dirname):
+    """Every loader that opens a second file (flt_load: <module>.NT/.nt/.AS/.as; mfp_load: smp.<name>; med2/med3/med4,
+    mod and stm song files: external instruments found through the instrument path).  Returns
+    [dict(name, module, companion, inspath)]; the companion is intact on disk."""
+    import shutil
+    import c10_opens
+    data = os.path.join(vlib.REPO, "test-dev", "data", "m")
+    out = []
+
+    def world(name):
+        d = os.path.join(dirname, name)
+        shutil.rmtree(d, ignore_errors=True)
+        os.makedirs(d)
+        return d
+
+    def cp(src, dst):
+        with open(src, "rb") as f:
+            b = f.read()
+        with open(dst, "wb") as f:
+            f.write(b)
+
+    zob, nt = os.path.join(data, "zob-the-zob.mod"), os.path.join(data, "zob-the-zob.mod.nt")
+    if os.path.exists(zob) and os.path.exists(nt):
+        for suf in ("nt", "NT", "as", "AS"):
+            d = world("flt-" + suf)
+            cp(zob, os.path.join(d, "zob.mod"))
+            cp(nt, os.path.join(d, "zob.mod." + suf))
+            out.append(dict(name="flt-" + suf, module=os.path.join(d, "zob.mod"), companion=os.path.join(d, "zob.mod." + suf), inspath=None))
+    # a Startrekker module made from scratch (FLT4 header, no samples) with an AudioSculpture companion
+    d = world("flt-synth")
+    with open(os.path.join(d, "song.flt"), "wb") as f:
+        f.write(c10_opens.flt_module())
+    with open(os.path.join(d, "song.flt.NT"), "wb") as f:
+        f.write(b"ST1.3 ModuleINFO" + bytes((i * 5) & 0x3f for i in range(24 + 120 * 31)))
+    out.append(dict(name="flt-synth", module=os.path.join(d, "song.flt"), companion=os.path.join(d, "song.flt.NT"), inspath=None))
+    mfp, smp = os.path.join(data, "mfp.crystaldragon title"), os.path.join(data, "smp.crystaldragon title")
+    if os.path.exists(mfp) and os.path.exists(smp):
+        d = world("mfp")
+        cp(mfp, os.path.join(d, "mfp.crystal"))
+        cp(smp, os.path.join(d, "smp.crystal"))
+        out.append(dict(name="mfp", module=os.path.join(d, "mfp.crystal"), companion=os.path.join(d, "smp.crystal"), inspath=None))
+    sample = bytes((i * 29 + 3) & 0xff for i in range(64))
+    songs = [("modsong", "song.mod", lambda: c10_opens.mod_song([b"kick"])),
+             ("stmsong", "song.stm", lambda: c10_opens.stm_song([b"kick"])),
+             ("med2", "song.med", lambda: c10_opens.med2_song(b"kick")),
+             ("med3", "song.med", lambda: c10_opens.med3_song(b"kick")),
+             ("med4", "song.med", lambda: c10_opens.med4_song([b"kick", b"kick", b"kick"]))]
+    for name, fn, gen in songs:
+        try:
+            blob = gen()
+        except Exception:
+            continue
+        d = world(name)
+        with open(os.path.join(d, fn), "wb") as f:
+            f.write(blob)
+        with open(os.path.join(d, "kick"), "wb") as f:
+            f.write(sample)
+        out.append(dict(name=name, module=os.path.join(d, fn), companion=os.path.join(d, "kick"), inspath=d))
+    return out
